@@ -244,6 +244,17 @@ fn run_msg_read(c: &MsgReadCase) -> Outcome {
     let seed = 9000 + c.n as u64;
     let bytes = match msg::build_vec(&c.cfg, &payload, seed) {
         Ok(mut b) => {
+            if c.cfg.armor && c.n % 2 == 1 {
+                // the same armor with CR LF line endings
+                let mut t = Vec::with_capacity(b.len() + b.len() / 60);
+                for &x in &b {
+                    if x == b'\n' {
+                        t.push(b'\r');
+                    }
+                    t.push(x);
+                }
+                b = t;
+            }
             if c.trailing {
                 let again = b.clone();
                 b.extend_from_slice(&again);
@@ -833,7 +844,7 @@ pub fn check(ctx: &Ctx) {
     ctx.run_space(
         "message_reader",
         true,
-        "Message::from_bytes/from_armor over BufReader(cap) over a scripted source -> decrypt -> decompress -> consumer -> verify, for 40 configurations (compression none/zip x plain/SEIPDv1/SEIPDv2 x signed or not x binary/text x armor) x payload lengths at the partial-body/chunk boundaries (reader-sourced = partial framing; bytes-sourced = fixed 1/2/5-octet lengths): all executions with <= 1 (thorough also 2) deviations from the default read/consumer answers including an injected source error (sticky, and transient = returned once) at every call, plus uniform 1/2/3/7/511/513-byte sources; consumer = read_to_end, fixed 1/3/8191, scripted sizes, fill_buf/consume. Oracle: same data, mode, signature verdicts; a source error surfaces as an error. Also streams on which a second message follows the first: every way of consuming (read_to_end, read(k), scripted sizes, fill_buf/consume) ends in an error.",
+        "Message::from_bytes/from_armor over BufReader(cap) over a scripted source -> decrypt -> decompress -> consumer -> verify, for 40 configurations (compression none/zip x plain/SEIPDv1/SEIPDv2 x signed or not x binary/text x armor; armored input with LF and, for odd lengths, CR LF line endings) x payload lengths at the partial-body/chunk boundaries (reader-sourced = partial framing; bytes-sourced = fixed 1/2/5-octet lengths): all executions with <= 1 (thorough also 2) deviations from the default read/consumer answers including an injected source error (sticky, and transient = returned once) at every call, plus uniform 1/2/3/7/511/513-byte sources; consumer = read_to_end, fixed 1/3/8191, scripted sizes, fill_buf/consume. Oracle: same data, mode, signature verdicts; a source error surfaces as an error. Also streams on which a second message follows the first: every way of consuming (read_to_end, read(k), scripted sizes, fill_buf/consume) ends in an error.",
         rc.into_par_iter(),
         run_msg_read,
     );
